@@ -652,7 +652,8 @@ impl TowerSys {
                 let res = self.via("add_appointment", &req, move |rt, api| rt.block_on(api.add_appointment(Request::new(req2))));
                 let (rpc, named) = self.rpc_log();
                 match res {
-                    Err(_) => self.panicked(&line, rep),
+                    // (what the request had asked of the node before it died is still reported)
+                    Err(_) => (self.panicked(&line, rep).0, named),
                     Ok(Ok(r)) => {
                         let r = r.into_inner();
                         let receipt = AppointmentReceipt::with_signature(sigs.clone(), r.start_block, r.signature.clone());
